@@ -252,7 +252,7 @@ Qed.
 Lemma open_items_silent knows ls u : visible_all knows (open_items ls u) = [].
 Proof.
   revert u. induction ls as [|l r IH]; intros u; [reflexivity|].
-  destruct l; cbn [open_items]; [| apply IH |]; unfold visible_all in *; cbn [flat_map];
+  destruct l; cbn [open_items]; try apply IH; unfold visible_all in *; cbn [flat_map];
     rewrite IH; destruct u; reflexivity.
 Qed.
 
@@ -567,13 +567,24 @@ Lemma forced_plain_client_rejected c :
   w_force c = true -> conn_tls c = false -> accepted c = false.
 Proof.
   intros Hf Ht. unfold accepted. destruct (plan c) as [|tls proto ls] eqn:Ep; [reflexivity|].
-  unfold sniffed, first_byte. rewrite Ep. cbn [plan_layers].
   unfold conn_tls in Ht. rewrite Ep in Ht. cbn in Ht. destruct tls; [discriminate|].
-  (* without a TLS policy the plan has neither head byte nor TLS layer *)
-  unfold plan, real_connect in Ep.
-  destruct (from_ptr (ct_tls_enable (w_client c)) || String.eqb (ct_protocol (w_client c)) "wss") eqn:E.
-  - destruct (new_client_tls _ _ _ _ _ _); [|discriminate].
-    destruct (String.eqb _ "websocket"); [|destruct (String.eqb _ "wss")]; discriminate.
-  - cbn in Ep. destruct (String.eqb _ "websocket"); [|destruct (String.eqb _ "wss")]; injection Ep as _ <-;
-      cbn; rewrite Hf; destruct (from_ptr (ct_tcp_mux (w_client c))); reflexivity.
+  unfold sniffed, first_byte. rewrite Ep. cbn [plan_layers].
+  unfold plan in Ep. destruct (is_quic c) eqn:Eq.
+  - (* quic always carries a TLS configuration *)
+    unfold open_quic in Ep.
+    destruct (if from_ptr (ct_tls_enable (w_client c)) then _ else _); discriminate.
+  - (* without a TLS policy the plan has neither head byte nor TLS layer *)
+    unfold real_connect in Ep.
+    destruct (from_ptr (ct_tls_enable (w_client c)) || String.eqb (ct_protocol (w_client c)) "wss") eqn:E.
+    + destruct (new_client_tls _ _ _ _ _ _); [|discriminate].
+      destruct (String.eqb _ "websocket"); [|destruct (String.eqb _ "wss")]; discriminate.
+    + cbn in Ep. destruct (String.eqb _ "websocket"); [|destruct (String.eqb _ "wss")]; injection Ep as _ <-;
+        cbn; rewrite Hf; destruct (from_ptr (ct_tcp_mux (w_client c))); reflexivity.
+Qed.
+
+(* quic: the connection always carries TLS, whatever tls.enable says *)
+Lemma quic_always_tls c : is_quic c = true -> plan c = DialErr \/ conn_tls c = true.
+Proof.
+  intros Hq. unfold conn_tls, plan. rewrite Hq. unfold open_quic.
+  destruct (if from_ptr (ct_tls_enable (w_client c)) then _ else _); [right; reflexivity|left; reflexivity].
 Qed.
